@@ -1,6 +1,7 @@
 package main
 
 import (
+	"math/rand"
 	"sort"
 	"strings"
 
@@ -22,6 +23,25 @@ type Ref struct {
 	Rel      string
 	Wildcard bool
 	Cond     string
+	EmptyRel bool // the relation oneof case is present but empty (what `"relation": ""` in JSON gives): a direct type
+}
+
+// emptyRelSometimes turns a few plain type restrictions into the present-but-empty relation form.
+func emptyRelSometimes(rng *rand.Rand, m *Model, oneIn int) *Model {
+	if rng.Intn(oneIn) != 0 {
+		return m
+	}
+	for ti := range m.Types {
+		for ri := range m.Types[ti].Rels {
+			rs := m.Types[ti].Rels[ri].Restr
+			for k := range rs {
+				if rs[k].Rel == "" && !rs[k].Wildcard && rng.Intn(3) == 0 {
+					rs[k].EmptyRel = true
+				}
+			}
+		}
+	}
+	return m
 }
 
 type Rel struct {
@@ -167,7 +187,7 @@ func (r Ref) Proto() *openfgav1.RelationReference {
 	p := &openfgav1.RelationReference{Type: r.Type, Condition: r.Cond}
 	if r.Wildcard {
 		p.RelationOrWildcard = &openfgav1.RelationReference_Wildcard{Wildcard: &openfgav1.Wildcard{}}
-	} else if r.Rel != "" {
+	} else if r.Rel != "" || r.EmptyRel {
 		p.RelationOrWildcard = &openfgav1.RelationReference_Relation{Relation: r.Rel}
 	}
 	return p
